@@ -224,12 +224,17 @@ def enfOp (st : EnfSt) (ts : List String) : Option (EnfSt × String × String ×
           let (ctx, vals) ← parseCtxVals args
           let (ep', r) := ep.enforceStep ctx none vals
           let (sp, wf) := specOf e ctx vals
-          retP ep' (showEnf r) sp (wf && hOk)
+          let inHyp := wf && hOk
+          -- outside the theorem's hypothesis the reference is still a meaningful oracle when the state
+          -- itself is well-formed: marked `?` = only used to search for a failing input
+          retP ep' (showEnf r) (if inHyp || sp == "-" then sp else if wf && stateOk e && ep.prm.isEmpty then "?" ++ sp else "-") inHyp
       | "enfx", args => do
           let (ctx, vals) ← parseCtxVals args
           let (ep', r) := ep.enforceStep ctx none vals
           let (sp, wf) := specOf e ctx vals
-          retP ep' (showEnfEx r) (if sp == "-" then "-" else sp ++ " ...") (wf && hOk)
+          let inHyp := wf && hOk
+          let sp' := if sp == "-" then "-" else sp ++ " ..."
+          retP ep' (showEnfEx r) (if inHyp || sp == "-" then sp' else if wf && stateOk e && ep.prm.isEmpty then "?" ++ sp' else "-") inHyp
       | "enfm", id :: args => do
           let (ctx, vals) ← parseCtxVals args
           let (ep', r) := ep.enforceStep ctx (some id) vals
@@ -326,7 +331,9 @@ def enfOp (st : EnfSt) (ts : List String) : Option (EnfSt × String × String ×
               -- spec: reachability through the currently listed grouping rules
               let grouping := fun gt => ((e.g.lookup gt).map (·.policy)).getD []
               let wfG := e.md.g.all (fun (gt, count, _) => (grouping gt).all (fun r => count == r.length))
-              ret e (showBool b) (showBool (specLink e.md grouping 10 gt (u :: r :: ds))) (wfG && hOk)
+              let sp := showBool (specLink e.md grouping 10 gt (u :: r :: ds))
+              let inHyp := wfG && hOk
+              ret e (showBool b) (if inHyp then sp else if stateOk e && ep.prm.isEmpty then "?" ++ sp else "-") inHyp
           | none => ret e "err" "-" true
       | "roles", gt :: u :: ds => do
           let u ← decodeTok u; let ds ← decodeAll ds
